@@ -89,6 +89,14 @@ class C18(Prop):
     def check(self, run):
         out = []
         enq = {ev[3]: ev[2] for ev in run.sim.hist if ev[0] == "enq"}
+        # datagram ids consumed before each call started (history order)
+        consumed_before = {}
+        seen = set()
+        for ev in run.sim.hist:
+            if ev[0] == "call":
+                consumed_before[ev[2]] = set(seen)
+            elif ev[0] == "rx":
+                seen.add(ev[3])
         shape = []
         for res in run.results:
             if res["op"]["op"] not in ("get", "refresh"):
@@ -108,19 +116,18 @@ class C18(Prop):
             t_tx = ex["t"]
             deadline = t_tx + T
             pending = run.wire_dec[(s, ex["serial"])]
-            # every datagram addressed to this session that matches the pending request, with its arrival time
+            # every datagram available to this call that matches the pending request (by ids alone),
+            # with the instant it became available: left in the queue by earlier calls, or arriving later
             match_arrivals = []
             strays_before = 0
             for did, d in run.dgrams.items():
-                if d["s"] != s or did not in enq:
-                    continue
-                if enq[did] < t_tx:
+                if d["s"] != s or did not in enq or did in consumed_before.get(res["i"], ()):
                     continue
                 v = oracle.classify(run.sess_cfg[s], pending, d["label"])
+                at = max(enq[did], t_tx)
                 if v == MATCH:
-                    # whatever it was an answer to: the ids match, so it is entitled to delivery
-                    match_arrivals.append((enq[did], d["label"]))
-                elif v == oracle.SKIP and enq[did] <= deadline:
+                    match_arrivals.append((at, d["label"]))
+                elif v == oracle.SKIP and at <= deadline:
                     strays_before += 1
             match_arrivals.sort(key=lambda x: x[0])
             run.sim.count("probe.return-time-checked")
@@ -136,7 +143,9 @@ class C18(Prop):
                 run.sim.count("probe.match-before-deadline")
                 if in_time[0][0] - t_tx > T // 2 and strays_before:
                     run.sim.count("probe.strays-span-beyond-T")
-                exp = ("value", None) if is_refresh else oracle.expect_get(in_time[0][1])
+                kind_, label_, _ = oracle.exchange_verdict(run, s, ex)
+                first = label_ if kind_ == MATCH else in_time[0][1]
+                exp = ("value", None) if is_refresh else oracle.expect_get(first)
                 for v in _compare(res, exp, "matching reply arrived %.6f s after the request (timeout %.3f s, %d stray datagrams first)" % ((in_time[0][0] - t_tx) / 1e9, T / 1e9, strays_before)):
                     v.oracle = "C18.match-in-time-not-delivered"
                     v.key = {"flavour": run.plan["flavour"]}
